@@ -85,7 +85,7 @@ def execute(case, script=None):
     _r.seed(f"global:{case.get('verif_seed')}:{case.get('index')}")
     view = MDPView(case['spec'])
     ctx = RunCtx(PROP, view)
-    ctx.declare_probes('rerun_after_abort', 'aborts_delivered', 'nested_run', 'second_derived_mdp_alive', 'second_planned_option_alive', 'option_raised_must', 'option_returned_must', 'boundary_raised', 'start_terminal',
+    ctx.declare_probes('fresh_model_after_other_model', 'rerun_after_abort', 'aborts_delivered', 'nested_run', 'second_derived_mdp_alive', 'second_planned_option_alive', 'option_raised_must', 'option_returned_must', 'boundary_raised', 'start_terminal',
                        'smdp_call_raised', 'smdp_dist_checked', 'primitive_checked', 'static_override_sets', 'plan_option',
                        'subtask_plan_checked', 'f7_before', 'f7_boundary', 'f7_after', 'cross_call_checked', 'smdp_actions_asked', 'option_run_longer_than_330_steps')
     sched = make_scheduler(case, script, ctx)
@@ -245,7 +245,20 @@ def _execute(view, cfg, ctx, sched):
         # fault F6: a run of the SAME option object on the same model object dies half-way with an exception thrown from a
         # model call-back; the runs below use the same objects
         ctx.probe('rerun_after_abort')
-        hook = ctx.abort_after(1 + cfg['abort'] % 9)
+        if cfg['abort'] % 2:
+            # ... after the option object has completed a run on ANOTHER model (same keys), and on a FRESH object for this
+            # workload's model, so that the run dies during the library's first sweep over it
+            try:
+                o.run_on(make_mdp(MDPView(nested_variant_spec(view.spec, cfg['abort'])), None), sk[start], rng=SimRandom(sched))
+            except AlgorithmException:
+                pass
+            except (Violation, Inconclusive):
+                raise
+            except Exception as e:
+                raise Violation('exception', f"Option.run_on (on another model) raised {type(e).__name__}: {e}")
+            mdp = make_mdp(view, ctx, alias=cfg.get('alias', 'fresh'))
+            ctx.probe('fresh_model_after_other_model')
+        hook = ctx.abort_after(1 + (cfg['abort'] // 2) % 9)
         try:
             o.run_on(mdp, sk[start], rng=SimRandom(sched))
         except InjectedAbort:
